@@ -95,7 +95,11 @@ def to_int(x):
     v = float(x) * SCALE
     r = round(v)
     if abs(v - r) > 1e-6:
-        raise ValueError(f'score {x} is not a multiple of 1/{SCALE}: float arithmetic was inexact')
+        # all inputs are multiples of 1/SCALE and every sum the search forms is exact in float32, so
+        # an implementation that reports anything else has added something that was not given to it
+        # (e.g. a penalty other than the configured one); the non-integral value compares unequal
+        # to every model score and is reported through the ordinary disagreement / oracle paths
+        return round(v, 4)
     return int(r)
 
 
@@ -208,6 +212,9 @@ def random_problem(rng, max_n=5, nbest_max=1, mixed_heads=False, multi=False, be
     p.penalty = rng.choice([0, 0, 6, 13, 64])
     p.pruning = rng.choice([50, 50, 1, 2, 3]) if beam else 50
     p.nbest = rng.randint(1, nbest_max)
+    # a step budget far above what these sentences need, but low enough that the model stays cheap even
+    # when a (changed) implementation stops much earlier than the model
+    p.max_step = 6000
     p.head_uniform = not mixed_heads
     hl = rng.random() < 0.5
     dens = rng.choice([0.25, 0.45, 0.7])
